@@ -1432,7 +1432,7 @@ B("C01-next_back-calls-next", "C01", "C01:R-C01.2:<iter::Iter as std::iter::Doub
 B("C01-batch-tombstone-inserts", "C01", "C01:R-C01.1:batch::WriteBatch::commit", BATCH,
   "ValueType::Tombstone => item.keyspace.tree.remove(item.key, batch_seqno),", "ValueType::Tombstone => item.keyspace.tree.insert(item.key, item.value, batch_seqno),")
 B("C01-last-is-first", "C01", "C01:R-C01.2:keyspace::Keyspace::last_key_value", KS,
-  "self.tree.last_key_value(SeqNo::MAX, None).map(Guard)", "self.tree.first_key_value(SeqNo::MAX, None).map(Guard)")
+  "self.tree.last_key_value(nonce.instant, None).map(Guard)", "self.tree.first_key_value(nonce.instant, None).map(Guard)")
 B("C01-snapshot-last-uses-next", "C01", "C01:R-C01.2:<snapshot::Snapshot as readable::Readable>::last_key_value", "src/snapshot.rs",
   "        self.iter(keyspace).next_back()", "        self.iter(keyspace).next()")
 B("C01-guard-value-returns-key", "C01", "C01:R-C01.2:guard::Guard::value", "src/guard.rs",
@@ -1720,18 +1720,12 @@ B("C17-drop-no-wait", "C17", "C17:R-C17.4:<db::DatabaseInner as std::ops::Drop>:
             .active_thread_counter
             .load(std::sync::atomic::Ordering::Relaxed)
             > 0
-        {
-            let _ = self.worker_pool.sender.send(WorkerMessage::Close);
-            std::thread::sleep(std::time::Duration::from_micros(10));
-        }""",
+        {""",
   """        if self
             .active_thread_counter
             .load(std::sync::atomic::Ordering::Relaxed)
             > 0
-        {
-            let _ = self.worker_pool.sender.send(WorkerMessage::Close);
-            std::thread::sleep(std::time::Duration::from_micros(10));
-        }""")
+        {""")
 B("C17-worker-no-decrement", "C17", "C17:R-C17.4:worker_pool::WorkerPool::start::{closure#0}::{closure#0}", "src/worker_pool.rs",
   """                            let _thread_counter = ThreadCounterGuard(thread_counter);
 """,
@@ -2551,3 +2545,40 @@ E2("REPAIRED-C18-replay-skips-persisted-records",
                 match item.value_type {
                     lsm_tree::ValueType::Value => {
                         tree.insert(item.key, item.value, batch.seqno);""")], props=["C18"])
+
+# ======================================================================== reverted fix 9 (keyspace id reuse)
+B("F09-C12-active-replay-ids-not-reserved", "C12", "C12:R-C12.4:db::Database::recover:replayed-ids-are-never-handed-out-again", DB,
+  """                        db.keyspace_id_counter.fetch_max(item.keyspace_id + 1);
+
+""", "")
+B("F09-C12-sealed-replay-ids-not-reserved", "C12", "C12:R-C12.4:recovery::recover_sealed_memtables:replayed-ids-are-never-handed-out-again", REC,
+  """                db.keyspace_id_counter.fetch_max(item.keyspace_id + 1);
+
+""", "")
+B("C12-replay-reserves-id-only-when-known", "C12", "C12:R-C12.4:db::Database::recover:replayed-ids-are-never-handed-out-again", DB,
+  """                        db.keyspace_id_counter.fetch_max(item.keyspace_id + 1);
+
+                        let Some(keyspace_name) = db.meta_keyspace.resolve_id(item.keyspace_id)?
+                        else {
+                            continue;
+                        };
+""",
+  """                        let Some(keyspace_name) = db.meta_keyspace.resolve_id(item.keyspace_id)?
+                        else {
+                            continue;
+                        };
+
+                        db.keyspace_id_counter.fetch_max(item.keyspace_id + 1);
+""")
+B("C12-replay-reserves-id-without-plus-one", "C12", "C12:R-C12.4:db::Database::recover:replayed-ids-are-never-handed-out-again", DB,
+  """                        db.keyspace_id_counter.fetch_max(item.keyspace_id + 1);""",
+  """                        db.keyspace_id_counter.fetch_max(item.keyspace_id);""")
+E2("EQ-replay-id-reserve-local",
+   [(DB, """                        db.keyspace_id_counter.fetch_max(item.keyspace_id + 1);
+
+                        let Some(keyspace_name) = db.meta_keyspace.resolve_id(item.keyspace_id)?""",
+     """                        let id = item.keyspace_id;
+                        let next_free = id + 1;
+                        db.keyspace_id_counter.fetch_max(next_free);
+
+                        let Some(keyspace_name) = db.meta_keyspace.resolve_id(id)?""")], props=["C12", "C04", "C11"])
